@@ -205,4 +205,14 @@ Theorem C04_format_fails_only_in_parser :
     lex_segments s = Some segs /\ r_err (fm_parse segs) = Some pe /\ e = FE_parse pe.
 Proof. exact format_fails_only_in_parser. Qed.
 
+(* for every program of the fragment the composed run cannot fail *)
+From PasfmtVerif Require Import Model.Format Proofs.FormatProofs Proofs.FormatTotalProofs Proofs.FormatTabsProofs Proofs.FormatWsProofs Proofs.FormatCrlfProofs Proofs.FormatRelayoutProofs Proofs.FormatFragmentProofs.
+Theorem C04_format_fragment_total :
+  forall (alnum : bytes -> bool) (cfg : fconfig) (s : bytes) (segs : list seg)
+    (ss : Fragment.stmts),
+  lex_segments s = Some segs ->
+  map seg_ty segs = Fragment.render_prog ss ->
+  format_model alnum cfg s = inl (fm_out alnum cfg segs).
+Proof. exact format_fragment_total. Qed.
+
 
